@@ -36,6 +36,7 @@ func checkC08(r *Run) {
 	g.Hosts = g.Hosts[:pick(r, 3, 6)]
 	runMatchD1(r, g, "tsr", true, pick(r, 5*time.Minute, 40*time.Minute))
 	runServeD1(r, newServeGen(r, rng), "C08", pick(r, 5*time.Minute, 40*time.Minute))
+	runRedirectD2(r, rng)
 	r.assumption("Location is compared after RFC 3986 resolution against the request URL (net/url)")
 	r.assumption("CONNECT routes that ignore trailing slashes are not generated (DESIGN.md 7)")
 }
